@@ -1,7 +1,13 @@
 import Lean.Data.Json
 import XModel.Parse
+import XModel.ParseKeys
 /-! Line-protocol suite `expr`: the printer model of `XModel/Parse.lean` on expression structures read
-    from real objects; emits the token list and whether the model's parser reads it back. -/
+    from real objects; emits the token list and whether the model's parser reads it back.
+    Structures with keys outside `str | int` (tuples, bools, `None`, floats) are printed and read back by the extended
+    model `XModel/ParseKeys.lean` (`"ext": true`); structures inside the old language go through BOTH models
+    (`ext_tokens_same`, `ext_parses_back`: `ParseKeys.print_embed` / `parse_print_embed` executed).  When the line carries
+    Python's tokenisation of the real printed text (`impl.tokens`), the extended parser also reads THOSE tokens and the
+    result is compared with the structure (`impl_parse`). -/
 namespace DExpr
 open Lean Parse
 
@@ -64,18 +70,145 @@ partial def eqE : Expr → Expr → Bool
       ks.length == ks'.length && (ks.zip ks').all (fun p => p.1.1 == p.2.1 && eqE p.1.2 p.2.2)
   | _, _ => false
 
+/-! ### the extended key language (`XModel/ParseKeys.lean`) -/
+namespace X
+open KeyPrint (KeyX)
+
+/-- a key: JSON string / integer / `true` / `false` / `null`, `{"f": [neg, text]}` (a finite float), `{"t": [keys]}` -/
+partial def keyOfJson : Json → Option KeyX
+  | .str s => some (.str s)
+  | .bool b => some (.bool b)
+  | .null => some .none
+  | .num n => (intOf (.num n)).map KeyX.int
+  | j@(.obj _) =>
+    match (j.getObjVal? "t").toOption with
+    | some (.arr a) => (a.toList.mapM keyOfJson).map KeyX.tuple
+    | _ =>
+      match (j.getObjVal? "f").toOption with
+      | some (.arr a) =>
+        (match a.toList with
+         | [.bool neg, .str t] => some (.flt neg t)
+         | _ => none)
+      | _ => none
+  | _ => none
+
+partial def exprOfJson : Json → Option ParseKeys.Expr
+  | .arr a => match a.toList with
+    | [.str "root", .str l] => some (.root l)
+    | [.str "item", o, k] => do let o ← exprOfJson o; let k ← keyOfJson k; pure (.item o k)
+    | [.str "attr", o, .str a] => (exprOfJson o).map (fun o => .attr o a)
+    | [.str "lit", v] => (intOf v).map ParseKeys.Expr.lit
+    | [.str "bin", .str op, l, r] => do let l ← exprOfJson l; let r ← exprOfJson r; pure (.bin op l r)
+    | [.str "un", .str op, x] => (exprOfJson x).map (ParseKeys.Expr.un op)
+    | [.str "call", f, .arr args] => do
+        let f ← exprOfJson f; let as ← args.toList.mapM exprOfJson; pure (.call f as)
+    | [.str "callkw", f, .arr args, .arr kws] => do
+        let f ← exprOfJson f; let as ← args.toList.mapM exprOfJson
+        let ks ← kws.toList.mapM (fun kv => match kv with
+          | .arr p => (match p.toList with
+            | [.str k, v] => (exprOfJson v).map (fun v => (k, v))
+            | _ => none)
+          | _ => none)
+        pure (ParseKeys.mkCall f as ks)
+    | [.str "flit", .bool neg, .str text] => some (.flit neg text)
+    | _ => none
+  | _ => none
+
+partial def keySize : KeyX → Nat
+  | .tuple ks => ks.foldl (fun n k => n + keySize k) 2
+  | _ => 1
+
+partial def size : ParseKeys.Expr → Nat
+  | .root _ => 1 | .lit _ => 1 | .flit _ _ => 1
+  | .item o k => size o + keySize k + 1 | .attr o _ => size o + 1
+  | .bin _ l r => size l + size r + 1 | .un _ a => size a + 1
+  | .call f as => size f + as.foldl (fun n a => n + size a) 1
+  | .callkw f as ks => size f + as.foldl (fun n a => n + size a) 1 + ks.foldl (fun n kv => n + size kv.2 + 1) 1
+
+partial def eqK : KeyX → KeyX → Bool
+  | .str a, .str b => a == b
+  | .int a, .int b => a == b
+  | .bool a, .bool b => a == b
+  | .flt n t, .flt n' t' => n == n' && t == t'
+  | .none, .none => true
+  | .tuple a, .tuple b => a.length == b.length && (a.zip b).all (fun p => eqK p.1 p.2)
+  | _, _ => false
+
+partial def eqE : ParseKeys.Expr → ParseKeys.Expr → Bool
+  | .root a, .root b => a == b
+  | .lit a, .lit b => a == b
+  | .flit n t, .flit n' t' => n == n' && t == t'
+  | .item o k, .item o' k' => eqE o o' && eqK k k'
+  | .attr o a, .attr o' a' => eqE o o' && a == a'
+  | .bin op l r, .bin op' l' r' => op == op' && eqE l l' && eqE r r'
+  | .un op a, .un op' a' => op == op' && eqE a a'
+  | .call f as, .call f' as' => eqE f f' && as.length == as'.length && (as.zip as').all (fun p => eqE p.1 p.2)
+  | .callkw f as ks, .callkw f' as' ks' =>
+    eqE f f' && as.length == as'.length && (as.zip as').all (fun p => eqE p.1 p.2) &&
+      ks.length == ks'.length && (ks.zip ks').all (fun p => p.1.1 == p.2.1 && eqE p.1.2 p.2.2)
+  | _, _ => false
+
+/-- does the extended parser read `toks` back as exactly `e`? -/
+def readsBack (e : ParseKeys.Expr) (toks : List Tok) : Bool :=
+  match ParseKeys.parseExpr (8 * size e + 16) toks with
+  | some (e', []) => eqE e e'
+  | _ => false
+
+end X
+
+/-- inverse of `tokJson`: Python's tokens of the real text, as sent by the harness -/
+def tokOfJson : Json → Option Tok
+  | .arr a => match a.toList with
+    | [.str "name", .str s] => some (.name s)
+    | [.str "str", .str s] => some (.str s)
+    | [.str "fnum", .str s] => some (.fnum s)
+    | [.str "num", n] => (match intOf n with
+      | some i => if 0 ≤ i then some (.num i.toNat) else none
+      | none => none)
+    | [.str "op", .str "("] => some .lpar | [.str "op", .str ")"] => some .rpar
+    | [.str "op", .str "["] => some .lbr | [.str "op", .str "]"] => some .rbr
+    | [.str "op", .str "."] => some .dot | [.str "op", .str ","] => some .comma
+    | [.str "op", .str s] => some (.op s)
+    | _ => none
+  | _ => none
+
+/-- Python's tokenisation of the real printed text, when the line carries it -/
+def implTokens (j : Json) : Option (List Tok) :=
+  match (j.getObjVal? "impl").toOption with
+  | some impl =>
+    (match (impl.getObjVal? "tokens").toOption with
+     | some (.arr a) => a.toList.mapM tokOfJson
+     | _ => none)
+  | none => none
+
+/-- the extended parser on the REAL tokens, compared with the structure; `null` when the line has no tokens -/
+def implParse (j : Json) (e : ParseKeys.Expr) : Json :=
+  match implTokens j with
+  | some toks => .bool (X.readsBack e toks)
+  | none => .null
+
 def step (j : Json) : Json :=
   match (j.getObjVal? "pexpr").toOption with
   | none => Json.mkObj [("skip", .bool true)]
   | some .null => Json.mkObj [("skip", .bool true)]
   | some pj =>
     match exprOfJson pj with
-    | none => Json.mkObj [("bad-op", .str "pexpr")]
     | some e =>
+      -- inside the language of `Parse`: the old model, and the extended model on the embedding
       let toks := print e
       let back := match parseExpr (4 * size e + 8) toks with
         | some (e', []) => eqE e e'
         | _ => false
-      Json.mkObj [("tokens", .arr (toks.map tokJson).toArray), ("parses_back", .bool back)]
+      let ex := ParseKeys.embed e
+      Json.mkObj [("tokens", .arr (toks.map tokJson).toArray), ("parses_back", .bool back), ("ext", .bool false),
+                  ("ext_tokens_same", .bool (decide (ParseKeys.print ex = toks))),
+                  ("ext_parses_back", .bool (X.readsBack ex toks)), ("impl_parse", implParse j ex)]
+    | none =>
+      match X.exprOfJson pj with
+      | none => Json.mkObj [("bad-op", .str "pexpr")]
+      | some e =>
+        let toks := ParseKeys.print e
+        Json.mkObj [("tokens", .arr (toks.map tokJson).toArray), ("parses_back", .bool (X.readsBack e toks)),
+                    ("ext", .bool true), ("impl_parse", implParse j e)]
 
 end DExpr
